@@ -219,6 +219,37 @@ func exec(plan any, sched *simrt.Tape) *sim.Outcome {
 	return out
 }
 
+// focused scenarios of other properties, re-run in the -race binary: only the race detector's verdict counts here
+var focused = [][2]string{
+	{"C12", "config-source-chaos"}, {"C12", "lookups-and-rounds"}, {"C11", "registration-rounds"},
+	{"C05", "propose"}, {"C18", "cache"}, {"C08", "multinode-attestations"}, {"C08", "multinode-sync-committee-messages"}, {"C01", "attest-runs"},
+}
+
 func init() {
-	sim.Register(&sim.Scenario{Property: "C17", Name: "system", Gen: gen, Exec: exec, Weight: 2, Race: true})
+	sim.Register(&sim.Scenario{Property: "C17", Name: "system", Gen: gen, Exec: exec, Weight: 3, Race: true})
+	for _, ref := range focused {
+		src := sim.Find(ref[0], ref[1])
+		if src == nil {
+			continue
+		}
+		inner := src.Exec
+		sim.Register(&sim.Scenario{Property: "C17", Name: ref[0] + "-" + ref[1], Gen: src.Gen, Weight: 1, Race: true, Exec: func(plan any, sched *simrt.Tape) *sim.Outcome {
+			before := fileSize(raceLog())
+			o := inner(plan, sched)
+			if o == nil {
+				return o
+			}
+			if o.Violation != nil && !strings.HasPrefix(o.Violation.Kind, "harness-") {
+				o.Violation = nil // that verdict belongs to the other property's check
+			}
+			if o.Probes == nil {
+				o.Probes = map[string]int{}
+			}
+			o.Nontrivial = true
+			if o.Violation == nil {
+				Judge(before, o)
+			}
+			return o
+		}})
+	}
 }
